@@ -858,7 +858,31 @@ def fn_simple(name, positive=False, odd=False):
     return ctor
 
 
+def _positive_content(r: Rat) -> dict | None:
+    """Exponents of positive atoms common to every term of r (den must be 1)."""
+    if r.den is not ONE_P or not r.num:
+        return None
+    common = None
+    for m in r.num:
+        d = {k: e for k, e in m if A(k).positive}
+        if common is None:
+            common = d
+        else:
+            common = {k: min(e, d[k]) for k, e in common.items() if k in d and (e > 0) == (d[k] > 0)}
+    return common or {}
+
+
 def fn_atan2(y: Rat, x: Rat) -> Rat:
+    # atan2(k*y, k*x) == atan2(y, x) for k > 0: strip the common positive content
+    cy, cx = _positive_content(y), _positive_content(x)
+    if cy and cx:
+        common = {}
+        for k, e in cy.items():
+            if k in cx and (e > 0) == (cx[k] > 0):
+                common[k] = min(e, cx[k], key=abs)
+        if common:
+            g = Rat({tuple(sorted(common.items())): F(1)})
+            y, x = y / g, x / g
     return Rat.fn('atan2', y, x)
 
 
